@@ -130,6 +130,7 @@ def run_property(prop, tier="quick", root="/repo/verde", overlay=None, write=Tru
         if getattr(rules_mod, "DEAD_PARAMETERS", True) and prop != "C99":
             from .rules import common as _common
             _common.dead_parameters(ctx)
+            _common.permutation_gather(ctx)
     except UndecidedFunction as e:
         err = "ANALYSIS-UNDECIDED property=%s unsupported construct in %s" % (prop, e)
     except AnalysisError as e:
@@ -208,6 +209,45 @@ def run_property(prop, tier="quick", root="/repo/verde", overlay=None, write=Tru
             if wrong:
                 code = 2
             lines.append("%s thorough: corpus %d variants (%d applied): %d seeded faults reported, %d neutral edits silent, %d wrong" % (prop, len(res), len(applied), len(killed), len(neutral), len(wrong)))
+            # (2) the current source after ALL behaviour-preserving rewrites at once must get the same verdict (DESIGN 8.6)
+            from . import rewrites, patching
+            try:
+                rw = rewrites.transformed("composed", root)
+                c2, _ctx2, l2 = run_property(prop, "quick", root=root, overlay=rw, write=False, quiet=True)
+            except Exception as e:  # noqa: BLE001
+                c2, l2 = 2, ["ANALYSIS-ERROR rewrite failed: %r" % e]
+            ctx.extra_coverage["rewritten_tree"] = {"rewrites": list(rewrites.COMPOSED), "exit": c2}
+            if c2 != 0:
+                code = 2
+                lines.append("ANALYSIS-ERROR property=%s the behaviour-preserving rewrite of the current tree is not accepted (exit %d): %s" % (prop, c2, "; ".join(x for x in l2 if x.startswith(("VIOL", "ANAL")))[:300]))
+            # (3) the independently written breaking changes filed under /verif/seeded that this property reported when they were
+            # filed are applied to the CURRENT source in memory and must still be reported - also after the rewrites
+            sd = []
+            for d in sorted((VERIF / "seeded").iterdir()) if (VERIF / "seeded").is_dir() else []:
+                mp, pp = d / "meta.json", d / "patch.diff"
+                if not (mp.exists() and pp.exists()):
+                    continue
+                meta = json.loads(mp.read_text())
+                if not meta.get("checks", {}).get(prop, {}).get("violation"):
+                    continue
+                try:
+                    ov = patching.overlay_for(pp.read_text(), root)
+                except patching.DoesNotApply as e:
+                    sd.append({"change": d.name, "applied": False, "why": str(e)})
+                    continue
+                c3, _c, _l = run_property(prop, "quick", root=root, overlay=ov, write=False, quiet=True)
+                try:
+                    full = rewrites.transformed("composed", root, texts=ov)
+                    c4, _c, _l = run_property(prop, "quick", root=root, overlay=full, write=False, quiet=True)
+                except Exception:  # noqa: BLE001
+                    c4 = 2
+                sd.append({"change": d.name, "applied": True, "reported": c3 == 1, "reported_after_rewrites": c4 == 1})
+                if c3 != 1 or c4 != 1:
+                    code = 2
+                    lines.append("ANALYSIS-ERROR property=%s seeded change %s is no longer reported (exit %d, after rewrites %d): insensitive rule" % (prop, d.name, c3, c4))
+            ctx.extra_coverage["seeded_changes"] = sd
+            lines.append("%s thorough: rewritten tree exit %d; %d filed breaking changes re-applied in memory, %d reported, %d reported after rewrites" % (
+                prop, c2, sum(1 for x in sd if x["applied"]), sum(1 for x in sd if x.get("reported")), sum(1 for x in sd if x.get("reported_after_rewrites"))))
         else:
             lines.append("%s thorough: corpus self-validation skipped (the tree itself does not pass)" % prop)
     wall = time.time() - t0
